@@ -71,7 +71,8 @@ def table(spec: str) -> pd.DataFrame:
         g, t = arg.split(",")
         return built_table(float(g), float(t))
     if kind == "synth_z":
-        return synth_consistent(float(arg))
+        a, _, rows = arg.partition(":")   # "synth_z:0.0:21" = the same family tabulated with 21 rows (500 psi apart)
+        return synth_consistent(float(a), n=int(rows)) if rows else synth_consistent(float(a))
     if kind == "synth_alpha":
         return synth_alpha(arg)
     raise KeyError(spec)
@@ -406,7 +407,9 @@ def rf_events(cfg, tid, seq0, obj, fp, tab, time, sched, ladder_nx: int | None =
         # the table's own inconsistency between the two lookups of density (in m-scaled vs in pressure)
         ms = np.asarray(fp.pvt_props["m-scaled"], dtype=float)[_o]
         ok = np.isfinite(ms)
-        rho_f_m = float(np.interp(float(fp.m_scaled_func(pf_min)), ms[ok], d[ok]))
+        # (the frac-face pseudopressure is read off the table rows by the harness's own linear interpolation, not through the
+        # wrapper's interpolator: an oracle must not read what it judges)
+        rho_f_m = float(np.interp(float(np.interp(pf_min, p[ok], ms[ok])), ms[ok], d[ok]))
         eps_table = abs(rho_f_m - rho_f) / rho_i
         ceil_q, hasceil = quant.q(ceiling + eps_table), True
         raw["ceiling"] = ceiling
